@@ -106,7 +106,7 @@ def check(rep):
     for h, b in zip(hs, base_out):
         for k in range(b["ops"]):
             for kind in (0, 1):
-                lines.append(json.dumps(muxgen.to_harness(h, readback=False, fail=k, fail_kind=kind)))
+                lines.append(json.dumps(muxgen.to_harness(h, readback=False, fail=k, fail_kind=kind, stop_on_io=True)))
                 lmeta.append((h, b, k, kind))
         for chunk, intr in ((1, 0), (3, 4), (7, 0)):
             lines.append(json.dumps(muxgen.to_harness(h, readback=False, chunk=chunk, intr=intr)))
